@@ -365,10 +365,10 @@ func (e *collEngine) exec(c *collCase, tape *Tape) *RunOut {
 }
 
 type builtProv struct {
-	p      godi.Provider
-	model  *collModel // snapshot of the model at Build
-	seen   map[Ident]int // identity -> producing registration observed at first resolution (-1 = not found)
-	inst   map[Ident]int // identity -> instance id (singleton / scoped-at-root)
+	p     godi.Provider
+	model *collModel    // snapshot of the model at Build
+	seen  map[Ident]int // identity -> producing registration observed at first resolution (-1 = not found)
+	inst  map[Ident]int // identity -> instance id (singleton / scoped-at-root)
 }
 
 func cloneCollModel(m *collModel) *collModel {
